@@ -363,6 +363,20 @@ impl AstLowering {
         })
     }
 
+    /// Does the `extends` chain that starts at `class_name` ever repeat a class?
+    fn extends_chain_is_cyclic(&self, class_name: &str) -> bool {
+        let mut seen = vec![class_name.to_string()];
+        let mut current = class_name.to_string();
+        while let Some(parent) = self.class_decls.get(&current).and_then(|c| c.extends.clone()) {
+            if seen.contains(&parent) {
+                return true;
+            }
+            seen.push(parent.clone());
+            current = parent;
+        }
+        false
+    }
+
     /// Recursively collect all inherited fields from parent classes.
     pub(super) fn collect_inherited_fields(
         &mut self,
@@ -374,6 +388,12 @@ impl AstLowering {
         if let Some(parent_class) = parent_class {
             // First, collect grandparent fields if any
             if let Some(grandparent_name) = &parent_class.extends {
+                if self.extends_chain_is_cyclic(class_name) {
+                    return Err(LoweringError {
+                        message: format!("Class '{}' inherits from itself", class_name),
+                        span: IrSpan::default(),
+                    });
+                }
                 self.collect_inherited_fields(grandparent_name, fields)?;
             }
 
@@ -405,6 +425,12 @@ impl AstLowering {
         if let Some(class) = self.class_decls.get(class_name) {
             // First, collect grandparent methods if any
             if let Some(parent_name) = &class.extends {
+                if self.extends_chain_is_cyclic(class_name) {
+                    return Err(LoweringError {
+                        message: format!("Class '{}' inherits from itself", class_name),
+                        span: IrSpan::default(),
+                    });
+                }
                 self.collect_inherited_methods(parent_name, methods)?;
             }
 
